@@ -86,8 +86,8 @@ def gen_problem(rng, scalar=None, family=None, N=None, S=None, ctor=None, weight
         r = rng.random()
         if r < 0.06 and family not in RANKDEF:
             N = M                                   # square system: exact interpolation, zero residual
-        elif r < 0.12:
-            N = rng.choice([17, 33, 64, 65, 100])   # long: beyond any small block / chunk size
+        elif r < 0.11:
+            N = rng.choice([17, 33, 65])            # long: beyond any small block / chunk size
         else:
             N = rng.randint(M + 1, M + 6)
     ctor = ctor or rng.choice(["new", "mrhs", "new_parallel", "mrhs_parallel"])
